@@ -189,7 +189,8 @@ func (node *redisNode) shutdown() {
 func (node *redisNode) do(cmd string, args ...interface{}) (interface{}, error) {
 	conn, err := node.getConn()
 	if err != nil {
-		return fmt.Sprintf("ECONNTIMEOUT: %v", err), nil
+		// not a reply : a string here would be taken for the command's successful answer
+		return nil, fmt.Errorf("ECONNTIMEOUT: %w", err)
 	}
 
 	if err = conn.send(cmd, args...); err != nil {
